@@ -375,6 +375,7 @@ fn evidence(prop: &str) -> Evidence {
         exhaustive: None,
         extra: vec![],
         min_distinct: 20,
+            min_counters: vec![],
     }
 }
 
